@@ -1121,6 +1121,10 @@ impl<'a> Searcher<'a> {
             },
             Field::IsDir => match file_info {
                 Some(file_info) => {
+                    if let Some(file_type) = file_info.mode.and_then(mode::mode_file_type) {
+                        return Variant::from_bool(mode::mode_type_is_directory(file_type));
+                    }
+
                     return Variant::from_bool(
                         file_info.name.ends_with('/') || file_info.name.ends_with('\\'),
                     );
@@ -1136,6 +1140,10 @@ impl<'a> Searcher<'a> {
             },
             Field::IsFile => match file_info {
                 Some(file_info) => {
+                    if let Some(file_type) = file_info.mode.and_then(mode::mode_file_type) {
+                        return Variant::from_bool(mode::mode_type_is_file(file_type));
+                    }
+
                     return Variant::from_bool(!file_info.name.ends_with('/'));
                 }
                 _ => {
@@ -1148,7 +1156,11 @@ impl<'a> Searcher<'a> {
                 }
             },
             Field::IsSymlink => match file_info {
-                Some(_) => {
+                Some(file_info) => {
+                    if let Some(file_type) = file_info.mode.and_then(mode::mode_file_type) {
+                        return Variant::from_bool(mode::mode_type_is_link(file_type));
+                    }
+
                     return Variant::from_bool(false);
                 }
                 _ => {
